@@ -2,7 +2,7 @@
 """Regenerates MANIFEST.json from the table below (kept in one place so it stays valid)."""
 import json, subprocess, sys
 
-HOOK_COMMITS = ["096ae72"]
+HOOK_COMMITS = ["096ae72", "f3cf827"]
 
 checks = {
  "C01": ("simmon", "exploration", "3 C01", "runtime monitoring: water-balance oracle on every sub-step and day of generated runs (in-process probes)",
